@@ -158,6 +158,32 @@ theorem ranked_nonincreasing (mode : Mode) (items : List Item) (π₁ π₂ : Li
     (shuffle (keptFrom mode [] items π₁) π₂)
   simpa [doCompetition_eq, le2] using this
 
+/-- the degenerate case (the code dies in `zip(*[])`, the model answers `no_ranked_groups`): nothing
+    is ranked exactly when no group has a supporting peptide and is not a contaminant — the
+    competition alone never empties the ranking -/
+theorem no_ranked_groups_iff (mode : Mode) (items : List Item) (π₁ π₂ : List Nat)
+    (ok : ShufflesOK mode items π₁ π₂) :
+    doCompetition mode items π₁ π₂ = [] ↔
+      ∀ x ∈ items, x.evidence = [] ∨ isContaminant x.group = true := by
+  constructor
+  · intro hnil x hx
+    by_contra hcon
+    simp only [not_or, Bool.not_eq_true] at hcon
+    have hev' : x.hasEvidence = true := by
+      cases h : x.evidence with
+      | nil => exact absurd h hcon.1
+      | cons _ _ => simp [Item.hasEvidence, h]
+    obtain ⟨s, hs, _⟩ := removal_has_better_survivor mode items π₁ π₂ ok x hx hev' hcon.2
+      (by rw [hnil]; simp)
+    rw [hnil] at hs; simp at hs
+  · intro hall
+    apply List.eq_nil_iff_forall_not_mem.mpr
+    intro x hx
+    obtain ⟨h1, h2, h3, _⟩ := survivors_unchanged mode items π₁ π₂ ok x hx
+    rcases hall x h1 with h | h
+    · exact h2 h
+    · rw [h3] at h; exact Bool.noConfusion h
+
 /-- the seen-set (anchored state `seen_proteins`) is empty again after a call on a fresh object,
     so successive calls on ONE strategy object are independent of each other: each returns what a
     fresh object returns (the missing `reset()` mutant breaks exactly this) -/
